@@ -30,7 +30,7 @@ pub fn spec(id: &str) -> Option<Spec> {
             Some(Spec {
                 id: "C10",
                 level: "fault_enumeration",
-                rule: "Reader: for each (document or stream, target, entry point, chunking) every byte position k in 0..=len gets a hard read error of each kind x {sticky, then-EOF, then-resume}; every read call k the fault-free run makes (incl. the library's own 3-byte BOM peek, 8 KiB refills and diagnostic read-ahead) fails in turn; every truncation point (EOF inside a code point = fault, at a boundary = control); cap values {0,1,L-4..L+4,2L+1,None}, incl. documents whose last character is a 2/3/4-byte code point with nothing after it; long tokens crossing the cap; endless readers with a cap. Writer: for each (value incl. a document using every serializer construct - anchors, flow / literal / folded / commented / SpaceAfter wrappers, binary, enums, nested maps -, serializer options) every write index 0..=writes+1 x {Other, BrokenPipe, WouldBlock, Ok(0)} x {sticky, transient} x short-write sizes {1,3,full}, and every byte position under short writes. One evaluation = one library call under one script. An execution is non-trivial when an injected fault actually fired (the library issued the failing read/write) or the cap was below the input length; distinct = distinct digests of the request trace (sequence of (requested length, result) pairs seen by SimReader/SimWriter).".into(),
+                rule: "Reader: for each (document or stream, target, entry point, chunking) every byte position k in 0..=len gets a hard read error of each kind x {sticky, then-EOF, then-resume}; every read call k the fault-free run makes (incl. the library's own 3-byte BOM peek, 8 KiB refills and diagnostic read-ahead) fails in turn; every truncation point (EOF inside a code point = fault, at a boundary = control); UTF-16 LE / BE re-encodings of 8 documents under the EOF, fault, read-call and cap sweeps and one generated case in ten re-encoded (boundaries, spans and the prefix control computed in the input's encoding); cap values {0,1,L-4..L+4,2L+1,None}, incl. documents whose last character is a 2/3/4-byte code point with nothing after it; long tokens crossing the cap; endless readers with a cap. Writer: for each (value incl. a document using every serializer construct - anchors, flow / literal / folded / commented / SpaceAfter wrappers, binary, enums, nested maps -, serializer options) every write index 0..=writes+1 x {Other, BrokenPipe, WouldBlock, Ok(0)} x {sticky, transient} x short-write sizes {1,3,full}, and every byte position under short writes; the fmt-writer entry point (to_fmt_writer) with every write_str index / byte position refused, sticky and transient. One evaluation = one library call under one script. An execution is non-trivial when an injected fault actually fired (the library issued the failing read/write) or the cap was below the input length; distinct = distinct digests of the request trace (sequence of (requested length, result) pairs seen by SimReader/SimWriter).".into(),
                 assumptions: vec![
                     "ErrorKind::Interrupted is excluded by the property statement; it is injected as a record-only probe".into(),
                     "documents of the streams used for the iterator oracle are valid and non-null, so item j corresponds to document j".into(),
@@ -98,7 +98,7 @@ pub fn spec(id: &str) -> Option<Spec> {
         "C17" => Some(Spec {
             id: "C17",
             level: "exploration",
-            rule: "Documents whose line i starts with key k<i> (so a renderer that shows a wrong line is recognisable), 3..600 lines (beyond the 3 KiB ring and the 8 KiB BufReader), LF or CRLF, optional BOM, one failing leaf at a seeded line and column (deep inside long flow sequences, after multi-byte text), control / C1 / ANSI / OSC sequences literal in source lines and as YAML escapes in reflected keys, values, unknown fields, unknown variants and duplicate keys; targets map-of-sequences, map-of-ints, strict struct, map-of-enums, untyped, a garde-validated map of items (paths reflect map keys), a validator-validated list, and a struct in which an anchored number is aliased into a bool field (two-location alias error, definition and use 1..4 lines apart). Groups of 10 cases share one document: from_str at the five radii {0,1,5,64,10000} and from_reader under 1-byte, whole, 100-byte and seeded schedules, a quarter of them with a read fault in the second half (the diagnostic read-ahead). Lines of 4..20 KiB (storage-time cropping) occur as error and context lines; a carriage return occurs as the only control character of a reflected text. Every returned error is rendered with Display, the default / user / custom formatters, a formatter that words every message itself and ends it with a fixed non-ASCII tail (the tail must arrive in full), snippets off, and (string input) the miette adapter. Oracle per text: no panic; no C0 except newline/tab, no DEL, no C1; at most 5 source lines per window, each within two lines of the marked one; each at most 2r+1 characters plus ellipses; gutter number = number in the k<n> key shown; caret line under the header's line; the character under the caret is the (sanitised) character at the reported column of the reported line of the input; without snippet the text names the reported line and column; an error of a string entry point that holds a source window is never rendered without a source line. One evaluation = one parse + all renderings. Non-trivial = every case that produced an error; distinct = distinct rendered-text digests.".into(),
+            rule: "Documents whose line i starts with key k<i> (so a renderer that shows a wrong line is recognisable), 3..600 lines (beyond the 3 KiB ring and the 8 KiB BufReader), LF or CRLF, optional BOM, one failing leaf at a seeded line and column (deep inside long flow sequences, after multi-byte text), control / C1 / ANSI / OSC sequences literal in source lines and as YAML escapes in reflected keys, values, unknown fields, unknown variants and duplicate keys; targets map-of-sequences, map-of-ints, strict struct, map-of-enums, untyped, a garde-validated map of items (paths reflect map keys), a validator-validated list, and a struct in which an anchored number is aliased into a bool field (two-location alias error, definition and use 1..4 lines apart). Groups of 10 cases share one document: from_str at the five radii {0,1,5,64,10000} and from_reader under 1-byte, whole, 100-byte and seeded schedules, the last two members with the text re-encoded as UTF-16 LE / BE, a quarter of them with a read fault in the second half (the diagnostic read-ahead). Lines of 4..20 KiB (storage-time cropping) occur as error and context lines; a carriage return occurs as the only control character of a reflected text. Every returned error is rendered with Display, the default / user / custom formatters, a formatter that words every message itself and ends it with a fixed non-ASCII tail (the tail must arrive in full), snippets off, and (string input) the miette adapter. Oracle per text: no panic; no C0 except newline/tab, no DEL, no C1; at most 5 source lines per window, each within two lines of the marked one; each at most 2r+1 characters plus ellipses; gutter number = number in the k<n> key shown; caret line under the header's line; the character under the caret is the (sanitised) character at the reported column of the reported line of the input; without snippet the text names the reported line and column; an error of a string entry point that holds a source window is never rendered without a source line. One evaluation = one parse + all renderings. Non-trivial = every case that produced an error; distinct = distinct rendered-text digests.".into(),
             assumptions: vec![
                 "display width follows unicode-width 0.2 with tab = 4 columns; the generator keeps to characters of unambiguous width".into(),
                 "lone-CR line breaks are not generated (C16's quantifier)".into(),
